@@ -53,7 +53,7 @@ type Frame struct {
 	defers   []*deferRec
 	phiCells map[*ssa.Phi]*Cell
 	cells    map[*ssa.Alloc]*Cell // local allocs (current incarnation)
-	named    map[string]*Cell     // source-named locals
+	named    map[string][]*Cell   // source-named locals (several declarations may share a name), in source order
 	depth    int
 	loopOrd  map[*ssa.BasicBlock]int
 	params   map[string]Value // entry values
@@ -160,7 +160,7 @@ type retRec struct {
 }
 
 func newFrame(fn *ssa.Function, parent *Frame) *Frame {
-	fr := &Frame{fn: fn, regs: map[ssa.Value]Value{}, phiCells: map[*ssa.Phi]*Cell{}, cells: map[*ssa.Alloc]*Cell{}, named: map[string]*Cell{}, parent: parent, params: map[string]Value{}}
+	fr := &Frame{fn: fn, regs: map[ssa.Value]Value{}, phiCells: map[*ssa.Phi]*Cell{}, cells: map[*ssa.Alloc]*Cell{}, named: map[string][]*Cell{}, parent: parent, params: map[string]Value{}}
 	if parent != nil {
 		fr.depth = parent.depth + 1
 		fr.isSpec = parent.isSpec
@@ -975,10 +975,39 @@ func (ex *Exec) execAlloc(fr *Frame, st *State, x *ssa.Alloc) {
 	}
 	fr.cells[x] = c
 	if name != "" {
-		fr.named[name] = c
+		fr.addNamed(name, c, x.Pos())
 	}
 	st.Cells[c] = zeroValue(et)
 	fr.regs[x] = PtrV{Loc{Kind: LCell, Cell: c, Root: et, Ty: et}, x.Type()}
+}
+
+// addNamed records the storage of a source-level local. Several declarations may share a name
+// (two loops both declaring i): they are kept in source order.
+func (fr *Frame) addNamed(name string, c *Cell, pos token.Pos) {
+	for _, o := range fr.named[name] {
+		if o == c {
+			return
+		}
+	}
+	c.Pos = pos
+	l := append(fr.named[name], c)
+	sort.SliceStable(l, func(i, j int) bool { return l[i].Pos < l[j].Pos })
+	fr.named[name] = l
+}
+
+// namedCell resolves a source-level name in a state: the latest declaration (in source order)
+// whose storage exists in that state.
+func (fr *Frame) namedCell(name string, st *State) *Cell {
+	l := fr.named[name]
+	for i := len(l) - 1; i >= 0; i-- {
+		if st == nil {
+			return l[i]
+		}
+		if _, ok := st.Cells[l[i]]; ok {
+			return l[i]
+		}
+	}
+	return nil
 }
 
 func (ex *Exec) nilCheck(fr *Frame, st *State, p PtrV, pos token.Pos) {
